@@ -251,6 +251,9 @@ def check(col: Collector, tier: str):
         ct = runner_source(REPO / f"func_adl_xAOD/template/cms/{r}/runner.sh")
         cfg = (REPO / f"func_adl_xAOD/template/cms/{r}/analyzer_cfg.py").read_text()
         ctq = re.sub(r'(?m)^(\s*\w+=)"([^\s"`]*)"\s*$', r"\1\2", ct)          # quotes around a whole assigned value do not matter
+        # (the delivered name may be spelled through the exported variable itself: $CMS_OUTPUT_FILE is that file name)
+        ctq = re.sub(r"(destination=\$output_dir/)(\$\{CMS_OUTPUT_FILE\}|\$CMS_OUTPUT_FILE\b)", lambda m_: m_.group(1) + (fname or ""), ctq) \
+            if f"CMS_OUTPUT_FILE={fname}" in ctq and len(re.findall(r"(?m)^\s*(?:export\s+)?CMS_OUTPUT_FILE=", ctq)) == 1 else ctq
         ok = f"CMS_OUTPUT_FILE={fname}" in ctq and f"destination=$output_dir/{fname}" in ctq and 'os.environ["CMS_OUTPUT_FILE"]' in cfg \
             and "fileName=cms.string(output_file)" in cfg
         col.add("C03.R6", f"runner:cms/{r}", "job-output-and-delivery-name", ok, f"CMS job must write and deliver {fname}", f"func_adl_xAOD/template/cms/{r}/runner.sh")
